@@ -127,8 +127,14 @@ pub fn eval_stmts(
             .context(BindFailed)?;
     }
 
+    #[cfg(feature = "verif")]
+    crate::verif::ev_seq_enter();
+
     let v = eval_stmts_with_scope_stack(context, &mut new_scopes, stmts)
         .context(EvalStmtsWithScopeStackFailed)?;
+
+    #[cfg(feature = "verif")]
+    crate::verif::ev_seq_exit(&v);
 
     Ok(v)
 }
@@ -141,8 +147,14 @@ pub fn eval_stmts_with_scope_stack(
     -> Result<Escape>
 {
     for stmt in stmts {
+        #[cfg(feature = "verif")]
+        crate::verif::ev_stmt_enter(stmt);
+
         let v = eval_stmt(context, scopes, stmt)
             .context(EvalStmtFailed)?;
+
+        #[cfg(feature = "verif")]
+        crate::verif::ev_stmt_exit(stmt, &v);
 
         match v {
             Escape::None => {},
@@ -863,6 +875,9 @@ fn apply_binary_operation(
 )
     -> Result<Value>
 {
+    #[cfg(feature = "verif")]
+    crate::verif::ev_binop(op, lhs, rhs);
+
     let (line, col) = op_loc;
     let new_invalid_op_types = || {
         Error::AtLoc{
@@ -1454,6 +1469,9 @@ fn eval_call(
             },
 
             CallBinding::Func{bindings, mut closure, stmts} => {
+                #[cfg(feature = "verif")]
+                crate::verif::ev_call_enter(&func_name);
+
                 let v = eval_stmts(
                     context,
                     &mut closure,
@@ -1464,6 +1482,9 @@ fn eval_call(
                         func_name,
                         call_loc: (*line, *col),
                     })?;
+
+                #[cfg(feature = "verif")]
+                crate::verif::ev_call_exit(&v);
 
                 match v {
                     Escape::None =>
